@@ -92,8 +92,21 @@ WRAPPERS = {
 }
 
 
+# the extends tag itself written on the executed path of a block tag that has nothing else in it: the chain is followed all the same
+EXTENDS_WRAPS = dict(WRAPPERS)
+EXTENDS_WRAPS.update({
+    "@if": ("{% if true %}", "{% endif %}"), "@if-data": ("{% if g1 %}", "{% endif %}"), "@for1": ("{% for z in (1..1) %}", "{% endfor %}"),
+    "@if-if": ("{% if true %}{% if true %}", "{% endif %}{% endif %}"), "@if-comment": ("{% if true %}{% comment %}x{% endcomment %}", "{% assign zz = 1 %}{% endif %}"),
+})
+
+
 def print_template(t: dict[str, Any]) -> str:
     head = "{% extends '" + t["extends"] + "' %}" if t.get("extends") else ""
+    if head and t.get("extends_wrap") == "@liquid":
+        head = "{% liquid\n extends '" + t["extends"] + "'\n%}"
+    elif head and t.get("extends_wrap"):
+        a, b = EXTENDS_WRAPS[t["extends_wrap"]]
+        head = a + head + b
     return head + print_items(t["items"])
 
 
@@ -683,6 +696,20 @@ def _cases(ctx: core.Ctx):
             }
             mark(templates)
             yield {"kind": "enum", "templates": templates, "leaf": "t0", "data": {"g1": "G1"}, "async": idx % 4 == 0}
+    # wrapped extends tags: every wrapper x position in chains of 2 and 3 x a fixed stride of the layouts
+    widx = 0
+    for wrap in list(EXTENDS_WRAPS) + ["@liquid"]:
+        for n in (2, 3):
+            for pos in range(n - 1):
+                for k in range(0, len(lay), max(1, len(lay) // 5)):
+                    widx += 1
+                    if widx % ctx.nshards != ctx.shard:
+                        continue
+                    tnames = [f"t{i}" for i in range(n)]
+                    templates = {tn: {"extends": tnames[i + 1] if i + 1 < n else None, "items": copy.deepcopy(lay[(k + 3 * i) % len(lay)])} for i, tn in enumerate(tnames)}
+                    templates[tnames[pos]]["extends_wrap"] = wrap
+                    mark(templates)
+                    yield {"kind": "wrapped-extends", "templates": templates, "leaf": "t0", "data": {"g1": "G1"}, "async": widx % 2 == 0}
     ctx.extra["exhaustive"] = ctx.case_limit is None
     ctx.extra["enumerated_layouts_per_template"] = len(lay)
     for _ in range(ctx.budget(6000, 600_000)):
